@@ -26,8 +26,8 @@ RULE = (
     "again, an unrelated design on another manager in the same process, rebuild the manager; after every find_design the "
     "(coordinates, height, max/min EFT, search log) must be bit-identical (float.hex) to the same scenario run once in a fresh "
     "subprocess with the canonical setter order; manager_history_l3 repeats this with pygfunction (no seam) on small "
-    "near-square / rectangle scenarios and adds a 'same land, other fluid/grout/pipe' foreign run. ghe_history: state machine on one real GHE (synthetic g family, 12-month "
-    "horizon): rules simulate(HYBRID), simulate(HOURLY), size(HYBRID), set height; every simulate(method) at height H must be "
+    "near-square / rectangle scenarios and adds a 'same land, other fluid/grout/pipe' foreign run. ghe_history: state machine on one real GHE (synthetic g family, 12- or "
+    "24-month horizon; the caller's load list must come back unchanged after every rule): rules simulate(HYBRID), simulate(HOURLY), size(HYBRID), set height; every simulate(method) at height H must be "
     "bit-identical to a fresh object's first call with the same (method, H). Non-trivial = history with >= 2 find_designs / a "
     "permuted order / a foreign run (manager), or mixing methods or heights (ghe); distinct by hash of the trace. One "
     "evaluation = one executed rule."
@@ -323,7 +323,8 @@ def search_manager_l3(ctx):
 class GheInterp:
     def __init__(self, case):
         self.case = case
-        self.hourly = build.gl.expand(case["loads"])
+        self.hourly = build.gl.expand(case["loads"])  # the caller's list: the object under test is built from it
+        self.hourly0 = tuple(self.hourly)  # what the caller handed over
         self.ghe = build.make_ghe(case, hourly=self.hourly)[0]
         self.h = float(self.ghe.bhe.b.H)
         self.methods = set()
@@ -332,7 +333,7 @@ class GheInterp:
     def fresh(self, method, h):
         from ghedesigner.enums import TimestepType
 
-        g = build.make_ghe(self.case, hourly=self.hourly)[0]
+        g = build.make_ghe(self.case, hourly=list(self.hourly0))[0]
         g.bhe.b.H = h
         with warnings.catch_warnings():
             warnings.simplefilter("ignore")
@@ -354,7 +355,7 @@ class GheInterp:
                 except ValueError as e:
                     # e.g. a profile whose hybrid sequence yields NaN temperatures (KF-C06-1): legitimate only if a fresh
                     # object rejects the same input the same way
-                    g = build.make_ghe(self.case, hourly=self.hourly)[0]
+                    g = build.make_ghe(self.case, hourly=list(self.hourly0))[0]
                     try:
                         g.size(method=TimestepType.HYBRID)
                     except ValueError:
@@ -380,6 +381,12 @@ class GheInterp:
                                     f"call in {n_diff} temperatures", sig={"kind": "simulate_history", "method": m})
             else:
                 raise core.HarnessError(op)
+        # state must not leak through the caller's own input either: every other object built from the same list
+        # (another horizon, another manager) would see a different load profile afterwards
+        if len(self.hourly) != len(self.hourly0) or tuple(self.hourly) != self.hourly0:
+            raise Violation(f"{op} changed the hourly load list the caller passed in ({len(self.hourly0)} -> {len(self.hourly)} values): "
+                            f"any object built from that list later simulates other loads than the same call on a fresh process",
+                            sig={"kind": "caller_loads_modified", "after": op})
 
 
 def check_ghe(case, rec):
@@ -397,7 +404,7 @@ def search_ghe(ctx):
     HOLDER["ctx"] = ctx
     known = ctx.known
     # a handful of GHE cases per shard (construction is the expensive part), many histories on each
-    cases = ctx.collect(build.ghe_case(months=st.just(12), max_n=64), 24 if ctx.tier == "quick" else 100, label="ghe")
+    cases = ctx.collect(build.ghe_case(months=st.sampled_from([12, 12, 24]), max_n=64), 24 if ctx.tier == "quick" else 100, label="ghe")
     mine = cases[ctx.shard::ctx.nshards]
     per_case = max(2, ctx.n(150, 2500) // max(1, len(mine)))
     for gc in mine:
